@@ -186,6 +186,11 @@ class TxnaExpr(LeafExpr):
             )
         if isinstance(index, Expr):
             require_type(index, TealType.uint64)
+        elif index < 0 or index > 255:
+            # the array index of txna/gtxna/itxna/gitxna is a one-byte immediate
+            raise TealInputError(
+                f"Invalid array index: {index}. A constant index must be between 0 and 255 inclusive."
+            )
 
     def __init__(
         self,
